@@ -33,6 +33,8 @@ void inst(gray8_view_t const& a, gray8_view_t const& b, rgb8_view_t const& c, rg
   (void)k2.center_x(); (void)k2.center_y(); (void)c2.center_x(); (void)c2.center_y(); (void)c2.left_size(); (void)c2.right_size(); (void)c2.upper_size(); (void)c2.lower_size();
   detail::kernel_2d_fixed<float, 3> f2(1, 1); detail::kernel_2d_fixed<float, 3> const& cf2 = f2; (void)f2.center_x(); (void)f2.center_y(); (void)cf2.center_x(); (void)cf2.center_y();
   kernel_1d<float> const& ck = k; (void)k.center(); (void)ck.center();
+  (void)extend_row(a, 2, boundary_option::extend_zero); (void)extend_col(a, 2, boundary_option::extend_constant); (void)extend_boundary(a, 2, boundary_option::extend_padded);
+  (void)extend_boundary(c, 1, boundary_option::extend_constant);
 }
 '''
 
@@ -46,7 +48,8 @@ def run(rep):
                   ["^boost::gil::(correlate|convolve)_(rows|cols)(_fixed)?$", "^boost::gil::detail::(correlate_rows_impl|convolve_1d|convolve_2d|convolve_2d_impl)$",
                    "^boost::gil::(view_multiplies_scalar|correlate_pixels_n|correlate_pixels_k)$",
                    "^boost::gil::reverse_kernel$", "^boost::gil::detail::kernel_1d_adaptor::(left_size|right_size)$",
-                   "^boost::gil::detail::kernel_(1d|2d)_adaptor::(center_x|center_y|center|upper_size|lower_size|kernel_2d_adaptor|operator=)$"])
+                   "^boost::gil::detail::kernel_(1d|2d)_adaptor::(center_x|center_y|center|upper_size|lower_size|kernel_2d_adaptor|operator=)$",
+                   "^boost::gil::(extend_row|extend_col|extend_boundary)$", "^boost::gil::detail::extend_row_impl$"])
     fns = d["functions"]
     spec = json.load(open(os.path.join(C.SPEC, "c15_convolve.json")))
     rep.units.append("c15_driver.cpp: %d instantiated functions" % len(fns))
@@ -106,6 +109,7 @@ def run(rep):
                 rep.violation("V2-kernel", "V2:reverse_kernel", R.fn_where(f), {"assignments": asg, "reverse": rev, "returns": rets})
     rep.floor("obligations:V2", 3)
     kernel_2d_rule(rep, fns)
+    extend_rule(rep, fns)
     # ---- V3 correlate_rows_impl
     rep.rule("V3 correlate_rows_impl: options exhaustive; buffer sizes; correlator ranges; destination fills only under output_zero; padding sources")
     n_impl = 0
@@ -342,6 +346,161 @@ def first_targ(full, name):
             break
         k += 1
     return full[j:k].strip()
+
+
+def _cond_eval(n, val):
+    """boolean AST under an assignment of its comparison atoms (val: normalised (op,l,r) -> bool)"""
+    n = R.strip(n)
+    while n is not None and n.get("k") == "Paren":
+        n = R.strip(n["e"])
+    if n.get("k") == "Binary" and n.get("op") in ("&&", "||"):
+        a, b = _cond_eval(n["l"], val), _cond_eval(n["r"], val)
+        return (a and b) if n["op"] == "&&" else (a or b)
+    if n.get("k") == "Unary" and n.get("op") == "!":
+        return not _cond_eval(n["e"], val)
+    if n.get("k") == "Binary" and n.get("op") in ("<", "<=", ">", ">=", "==", "!="):
+        return val(n["op"], R.key(n["l"]), R.key(n["r"]))
+    raise KeyError(R.key(n))
+
+
+def extend_rule(rep, fns):
+    """V7: extend_row_impl writes result row i from the documented source for each of the three regions of i, per policy;
+    extend_row/extend_col/extend_boundary size the result and delegate as documented"""
+    rep.rule("V7 extend_row_impl: for every result row i in [0, result.height()): c <= i < c+h -> source row i-c (all policies); extend_constant: i < c -> row 0, "
+             "i >= c+h -> row h-1; extend_zero: the other rows are filled with the zero pixel over the full width; extend_padded: row i of the source shifted up by c. "
+             "The path condition of every row copy is evaluated on the three regions of i (below, inside, above) as a boolean function. "
+             "extend_row: result (w, h+2c); extend_col: result (w+2c, h), both views rotated90cw; extend_boundary: extend_row(extend_col) or the (w+2c, h+2c) window at (-c,-c)")
+    impl = [f for f in fns if f["name"] == "boost::gil::detail::extend_row_impl"]
+    done = set()
+    for f in impl:
+        sv, rv, cnt, opt = [q["name"] for q in f["params"]]
+        tag = f["params"][0]["type"][:80]
+        if "rotated" in "" or tag in done:
+            pass
+        done.add(tag)
+        rep.count("obligations:V7")
+        c_ = "extend_count_"
+        decl = {dd["name"]: R.key(dd.get("init")) for dn, _ in R.find(f["body"], lambda x: x.get("k") == "Decl") for dd in dn["decls"] if dd.get("name") and dd.get("init") is not None}
+        prob = []
+        if decl.get(c_) not in (cnt, "static_cast<std::ptrdiff_t>(%s)" % cnt):
+            prob.append("%s = %s" % (c_, decl.get(c_)))
+        H = "%s.height()" % sv
+        # sign classes of (i - c, i - (c+h)) that are consistent with h >= 0; lo: i < c, mid: c <= i < c+h, hi: i >= c+h
+        REG = [(-1, -1), (0, -1), (0, 0), (1, -1), (1, 0), (1, 1)]
+        NAME = lambda rg: "lo" if rg[0] < 0 else ("mid" if rg[1] < 0 else "hi")
+        unknown = []
+
+        def val_in(region, iv):
+            def val(op, l, r):
+                flip = {"<": ">", ">": "<", "<=": ">=", ">=": "<=", "==": "==", "!=": "!="}
+                if l != iv and r == iv:
+                    op, l, r = flip[op], r, l
+                if (l, r) == (iv, c_):
+                    sg = region[0]
+                elif (l, r) in ((iv, "(%s + %s)" % (c_, H)), (iv, "(%s + %s)" % (H, c_))):
+                    sg = region[1]
+                else:
+                    raise KeyError("%s %s %s" % (l, op, r))
+                return {"<": sg < 0, "<=": sg <= 0, ">": sg > 0, ">=": sg >= 0, "==": sg == 0, "!=": sg != 0}[op]
+            return val
+        copies = []
+        for c, pth in R.calls_in(f["body"], lambda n: n.endswith("assign_pixels") or n in ("std::fill_n",)):
+            opts = [(op, l, r) for op, l, r in R.guards(pth) if opt in (l, r)]
+            loops = [a for a, fld, _ in pth if a.get("k") == "For" and fld == "body"]
+            if len(loops) != 1:
+                prob.append("%s outside a single row loop" % R.key(c)[:60])
+                continue
+            lp = loops[0]
+            init = R.strip(lp["init"])
+            iv = init["decls"][0]["name"]
+            if R.key(init["decls"][0].get("init")) != "0" or R.key(lp["cond"]) != "(%s < %s.height())" % (iv, rv) or R.key(lp["inc"]) not in ("(%s++)" % iv, "(++%s)" % iv):
+                prob.append("row loop of %s does not run over [0, result.height())" % R.key(c)[:40])
+            li = [i for i, z in enumerate(pth) if z[0] is lp][0]
+            inner_ifs = [(a, fld) for a, fld, _ in pth[li + 1:] if a.get("k") == "If" and fld in ("then", "else")]
+            regions, exact = set(), True
+            try:
+                hit = []
+                for rg in REG:
+                    ok = True
+                    for a, fld in inner_ifs:
+                        v = _cond_eval(a["cond"], val_in(rg, iv))
+                        ok = ok and (v if fld == "then" else not v)
+                    if ok:
+                        hit.append(rg)
+                regions = {NAME(rg) for rg in hit}
+                # the path condition must be a union of whole documented regions
+                exact = all((rg in hit) == (NAME(rg) in regions) for rg in REG)
+            except KeyError as e:
+                unknown.append("condition %s not over i, c, c+h" % e)
+                continue
+            if not exact:
+                prob.append("%s runs for the rows %s of (sign(i-c), sign(i-c-h)): not a union of the regions below / inside / above" % (R.key(c)[:50], hit))
+            policy = [(l if r == opt else r).split("::")[-1] for op, l, r in opts if op == "=="]
+            copies.append((policy[-1] if policy else "?", R.key(c), frozenset(regions), iv))
+        want = {
+            "extend_constant": {("assign_pixels(%s.row_begin((%%s - %s)),%s.row_end((%%s - %s)),%s.row_begin(%%s))" % (sv, c_, sv, c_, rv), frozenset(["mid"])),
+                                ("assign_pixels(%s.row_begin(0),%s.row_end(0),%s.row_begin(%%s))" % (sv, sv, rv), frozenset(["lo"])),
+                                ("assign_pixels(%s.row_begin((%s - 1)),%s.row_end((%s - 1)),%s.row_begin(%%s))" % (sv, H, sv, H, rv), frozenset(["hi"]))},
+            "extend_zero": {("assign_pixels(%s.row_begin((%%s - %s)),%s.row_end((%%s - %s)),%s.row_begin(%%s))" % (sv, c_, sv, c_, rv), frozenset(["mid"])),
+                            ("fill_n(%s.row_begin(%%s),%s.width(),acc_zero)" % (rv, rv), frozenset(["lo", "hi"]))},
+            "extend_padded": {("assign_pixels(original_view.row_begin(%s),original_view.row_end(%s),%s.row_begin(%s))" % ("%s", "%s", rv, "%s"), frozenset(["lo", "mid", "hi"]))},
+        }
+        got = {}
+        for pol, k, rg, iv in copies:
+            got.setdefault(pol, set()).add((k, rg, iv))
+        for pol, w in want.items():
+            g = got.get(pol, set())
+            wi = set()
+            for k, rg, iv in g:
+                wi |= {(t.replace("%s", iv) if "%s" in t else t, r) for t, r in w}
+            if {(k, rg) for k, rg, iv in g} != wi or not g:
+                prob.append("%s: row copies %s, documented %s" % (pol, sorted((k, sorted(rg)) for k, rg, iv in g), sorted((t, sorted(r)) for t, r in w)))
+        if set(got) - set(want):
+            prob.append("copies under an unknown policy: %s" % sorted(set(got) - set(want)))
+        if decl.get("original_view") != "subimage_view(%s,0,(-%s),%s.width(),(%s + (2 * %s)))" % (sv, cnt, sv, H, cnt):
+            prob.append("padded window %s" % decl.get("original_view"))
+        zero = [R.key(c) for c, _ in R.calls_in(f["body"], lambda n: "pixel_zeros_t" in n)]
+        if zero != ["pixel_zeros_t{}(acc_zero)"] and not any("acc_zero" in z for z in zero):
+            prob.append("zero pixel built by %s" % zero)
+        key = "V7:extend_row_impl<%s>" % ("rotated" if "step" in tag or "transposed" in tag.lower() else "plain")
+        if unknown:
+            rep.incon("V7-extend", key, {"unrecognised": unknown})
+        elif prob:
+            rep.violation("V7-extend", key, R.fn_where(f), {"problems": prob})
+        else:
+            rep.ok("V7-extend", key, {"copies": sorted((pol, sorted(rg)) for pol, k, rg, iv in copies)})
+    # the three public functions
+    for f in fns:
+        short = f["name"].split("::")[-1]
+        if f["name"] not in ("boost::gil::extend_row", "boost::gil::extend_col", "boost::gil::extend_boundary") or (short, f["params"][0]["type"][:60]) in done:
+            continue
+        done.add((short, f["params"][0]["type"][:60]))
+        rn = R.param_renamer(f)
+        decl = {dd["name"]: rn(R.key(dd.get("init"))) for dn, _ in R.find(f["body"], lambda x: x.get("k") == "Decl") for dd in dn["decls"] if dd.get("name") and dd.get("init") is not None}
+        calls = [rn(R.key(c)) for c, _ in R.calls_in(f["body"], lambda n: n.split("::")[-1] in ("extend_row_impl", "extend_row", "extend_col", "assign_pixels"))]
+        rets = [rn(R.key(x["e"])) for x, _ in R.find(f["body"], lambda x: x.get("k") == "Return")]
+        rep.count("obligations:V7")
+        det = {"decls": decl, "calls": calls, "returns": rets}
+        if short == "extend_row":
+            ok = decl.get("result_img", "").startswith("image{$0.width(),($0.height() + (2 * $1)),") and decl.get("result_view") == "view(result_img)" and \
+                calls == ["extend_row_impl($0,result_view,$1,$2)"] and rets == ["result_img"]
+        elif short == "extend_col":
+            ok = decl.get("result_img", "").startswith("image{($0.width() + (2 * $1)),$0.height(),") and decl.get("src_view_rotate") == "rotated90cw_view($0)" and \
+                decl.get("result_view") == "rotated90cw_view(view(result_img))" and calls == ["extend_row_impl(src_view_rotate,result_view,$1,$2)"] and rets == ["result_img"]
+        else:
+            gpad = False
+            for c, pth in R.calls_in(f["body"], lambda n: n.endswith("assign_pixels")):
+                gpad = any(op == "==" and "extend_padded" in l + r for op, l, r in R.guards(pth))
+            ok = decl.get("result_img", "").startswith("image{($0.width() + (2 * $1)),($0.height() + (2 * $1)),") and \
+                decl.get("original_view") == "subimage_view($0,(-$1),(-$1),($0.width() + (2 * $1)),($0.height() + (2 * $1)))" and gpad and \
+                "assign_pixels(original_view.row_begin(i),original_view.row_end(i),result_view.row_begin(i))" in calls and \
+                decl.get("auxilary_img") == "extend_col($0,$1,$2)" and "extend_row(view(auxilary_img),$1,$2)" in calls and "result_img" in rets
+        k = "V7:%s" % short
+        if ok:
+            rep.ok("V7-extend", k, calls)
+        else:
+            rep.violation("V7-extend", k, R.fn_where(f), det)
+    rep.floor("obligations:V7", 5)
 
 
 def kernel_2d_rule(rep, fns):
